@@ -164,12 +164,13 @@ def run(ctx):
     quick = ctx.tier == "quick"
     arm_deadline(ctx, 330 if quick else 1750)
     ctx.rule = ("configurations: 2-4 threads over 1-3 endpoint pairs (families pair, paircb = callback endpoints, twosock, "
-                "threenode, reinc = a later endpoint re-using a key, switch = the receiver flips use_callbacks on its connected socket while the peer sends, reconn = a (callback) receiver that stays connected while the sender disconnects, reconnects with the same socket id and sends again, lone = no peer, shared = two threads on one key), "
+                "threenode, reinc = a later endpoint re-using a key, switch = the receiver flips use_callbacks on its connected socket while the peer sends, storage = endpoints of every exported socket class (StorageThreadSocket as callback endpoint; the constructors are scheduling points), reconn = a (callback) receiver that stays connected while the sender disconnects, reconnects with the same socket id and sends again, lone = no peer, shared = two threads on one key), "
                 "<= 4 send/recv/recv-nonblocking ops between connect and optional disconnect; each is run on the real "
                 "hub under seeded random (pre-emption probability 0.03..0.7) and PCT-style (depth 2..5) line-level "
                 "schedules; message payloads include the empty string, \"0\" and whitespace. A second stream runs "
                 "ThreadBroadcastChannel endpoints (2-3 nodes all broadcasting, or one broadcast receiver polling 1-2 plain "
-                "peers) under the same scheduler, compared step by step with Net/Bcast.v and judged by the broadcast oracle. "
+                "peers) under the same scheduler, compared step by step with Net/Bcast.v and judged by the broadcast oracle; a third runs two configurations in one "
+                "process separated by reset_socket_hub() on the module-level hub. "
                 "A case = (configuration, executed access schedule); non-trivial if at least one message "
                 "was sent and the schedule switched threads at least twice; distinct = distinct (configuration, "
                 "access schedule).")
@@ -237,6 +238,11 @@ def run(ctx):
         rec = json.load(open(f))
         if rec.get("kind") == "bcast":
             replay_bcast(ctx, rec, dict(corpus=os.path.basename(f)))
+            cov["corpus_replayed"] += 1
+            continue
+        if rec.get("kind") == "tworun":
+            two_runs(ctx, drv, rec["cfg1"], rec["cfg2"], hs.list_chooser(rec["schedule1"]), hs.list_chooser(rec["schedule2"]),
+                     dict(corpus=os.path.basename(f)), mism)
             cov["corpus_replayed"] += 1
             continue
         r, ci, m, probs, rep = replay_entry(ctx, drv, rec, dict(corpus=os.path.basename(f)))
@@ -319,6 +325,20 @@ def run(ctx):
                     mism.append((("model-outcome-not-reproduced", o, ci), rep))
         elif outs is not None:
             cov["model_outcomes_reproduced"] += sum(1 for o, _ in outs if hc.okey(o) in seen_outcomes)
+    # ---- several runs in one process: run, reset_socket_hub(), run again on the same names; the run after the
+    # reset must behave as on a fresh hub (model: reset returns to init) — on the hub object the exported socket
+    # classes are really bound to
+    cov["tworun_cases"] = 0
+    t_two = time.time()
+    for c in range(10 if quick else 80):
+        if time.time() - t_two > (12 if quick else 90) or too_many_leaks(ctx):
+            break
+        cfg1, cfg2 = hc.gen_two_runs(rng)
+        for s2 in range(4 if quick else 10):
+            p1, p2 = rng.choice([0.05, 0.3, 0.7]), rng.choice([0.05, 0.3, 0.7])
+            two_runs(ctx, drv, cfg1, cfg2, hs.random_chooser(rng, p1), hs.random_chooser(rng, p2),
+                     dict(chooser="random", p=[p1, p2]), mism)
+            cov["tworun_cases"] += 1
     # ---- broadcast channels over thread sockets: oracle + step-level correspondence with Net/Bcast.v
     n_bc = 16 if quick else 140
     n_bs = 10 if quick else 36
@@ -431,6 +451,37 @@ def run(ctx):
     ctx.finish()
 
 
+def two_runs(ctx, drv, cfg1, cfg2, ch1, ch2, info, mism):
+    o = hc.run_two(cfg1, cfg2, ch1, ch2)
+    r1, r2 = o["r1"], o["r2"]
+    for r, cfg in ((r1, cfg1), (r2, cfg2)):
+        if r.harness_errors:
+            HERR.append((r.harness_errors[0], dict(kind="tworun", cfg=cfg, info=info)))
+    if "bad2" not in o or "bad1" not in o:
+        return o
+    rep = dict(kind="tworun", cfg1=cfg1, schedule1=r1.line_sched, cfg2=cfg2, schedule2=r2.line_sched, mode="line",
+               accesses2=r2.labels(), outcome1=o["ci1"], outcome2=o["ci2"], info=info,
+               payloads={str(m): hc.pay(m) for m in range(1, 30)})
+    ctx.note_case(hash((json.dumps(cfg1), json.dumps(cfg2), tuple(r1.line_sched), tuple(r2.line_sched))), nontrivial=True)
+    if o["bad2"]:
+        b = o["bad2"][0]
+        ctx.violation(f"after reset_socket_hub(): {b[0]}: {b[1]} (the earlier run of this process left "
+                      f"{o['ci1']['queues']} queued, open {o['ci1']['open']})", dict(rep, oracle=[list(x) for x in o["bad2"]]))
+    elif o["bad1"]:
+        b = o["bad1"][0]
+        ctx.violation(f"{b[0]}: {b[1]}", dict(rep, oracle=[list(x) for x in o["bad1"]]))
+    # the run after the reset must be a run of the model from its initial state
+    for r, cfg, ci, tag in ((r1, cfg1, o["ci1"], "first run"), (r2, cfg2, o["ci2"], "run after reset")):
+        drv.set_cfg(cfg)
+        m = drv.run(r.access_schedule())
+        if m["labels"] != r.labels() or hc.canon_model(m["outcome"]) != ci:
+            i = next((j for j, (a, b) in enumerate(zip(m["labels"], r.labels())) if a != b), min(len(m["labels"]), len(r.labels())))
+            what = (("labels " + tag, i, (m["labels"][i:i + 3], r.labels()[i:i + 3])) if m["labels"] != r.labels()
+                    else ("outcome " + tag, hc.canon_model(m["outcome"]), ci))
+            mism.append((what, rep))
+    return o
+
+
 def replay_bcast(ctx, rec, info):
     cfg = rec["cfg"]
     r = hc.run_impl_bc(cfg, hs.list_chooser(rec["schedule"], then_round_robin=rec.get("then_round_robin", True)))
@@ -494,6 +545,8 @@ def search(ctx, drv, reps):
     rng = ctx.rng
     t_search = time.time()
     for rep in reps:
+        if rep.get("kind") == "tworun":
+            continue
         cfg = rep["cfg"]
         if rep.get("kind") == "bcast":
             for i in range(60):
@@ -557,6 +610,14 @@ def replay(ctx, path):
     drv = hc.Driver(ctx)
     if not drv.ok:
         ctx.gen_obligation("extraction of Net/Hub.v and OCaml driver build", False, drv.err[-400:])
+        return ctx.finish()
+    if rec.get("kind") == "tworun":
+        mm = []
+        o = two_runs(ctx, drv, rec["cfg1"], rec["cfg2"], hs.list_chooser(rec["schedule1"]), hs.list_chooser(rec["schedule2"]),
+                     dict(replay=path), mm)
+        print("replay: first run", o.get("ci1"), o.get("bad1"))
+        print("replay: run after reset", o.get("ci2"), o.get("bad2"))
+        print("replay: model", "agrees" if not mm else mm[0][0])
         return ctx.finish()
     r, ci, m, probs, rep = replay_entry(ctx, drv, rec, dict(replay=path))
     print("replay: accesses", r.labels())
